@@ -1,9 +1,9 @@
 (* BTreeModel — executable model of /repo/src/btree.c (definitions only, no proofs).
 
-   Follows the C code as it is now (after the three fix: commits 78e86b7, 4c78417, f52714a),
+   Follows the C code as it is now (after the fix: commits 78e86b7, 4c78417, f52714a, 627c158, 1a03612),
    function by function and branch by branch.  Conventions:
    * a page is [Leaf vals] or [Inode vals children]; the arrays hold exactly n_vals (+1) entries;
-   * (L, I) = (ZIX_BTREE_LEAF_VALS, ZIX_BTREE_INODE_VALS) are parameters;
+   * (L, I, H) = (ZIX_BTREE_LEAF_VALS, ZIX_BTREE_INODE_VALS, ZIX_BTREE_MAX_HEIGHT) are parameters;
    * elements are opaque; the tree comparator is Z.compare on [rank]; every comparator call is
      logged (the stored value that was passed as FIRST argument; the second is always the key);
    * [dflt] stands for whatever an out-of-range array read would return (never reached under Inv);
@@ -23,6 +23,7 @@ Section BTreeModel.
   Variable rank : elt -> Z.
   Variable dflt : elt.
   Variables L I : nat.
+  Variable H : nat.                 (* ZIX_BTREE_MAX_HEIGHT *)
 
   Inductive node := Leaf (vs : list elt) | Inode (vs : list elt) (cs : list node).
 
@@ -174,8 +175,11 @@ Section BTreeModel.
       end
     end.
 
-  (* zix_btree_grow_up: new root allocated, then the old root split (second allocation) *)
+  (* zix_btree_grow_up: first the height is measured along the leftmost path ("height = 1; for (n = root; !n->is_leaf;
+     n = child(n, 0)) ++height") and growth beyond ZIX_BTREE_MAX_HEIGHT is refused with OVERFLOW before any request is
+     made (fix 1a03612); then the new root is allocated and the old root split (second allocation) *)
   Definition grow_up (o : list bool) (r : node) : status * node * list bool :=
+    if H <=? height r then (OVERFLOW, r, o) else
     let '(ok1, o1) := alloc o in
     if negb ok1 then (NO_MEM, r, o1) else
     let '(ok2, o2) := alloc o1 in
